@@ -95,6 +95,21 @@ func checkC08(c *Ctx) {
 				ok = hasCmp(ways[0], "==", is("p0."+kTOMsg+"View"), is("fv:timeout->"+kTOMsg+"View")) &&
 					hasCmp(ways[0], "==", is("p0."+kTOMsg+"ID"), is("fv:timeout->"+kTOMsg+"ID"))
 			}
+			if !ok {
+				sameViewAndSender := func(hit []Fact, elem string) bool {
+					has := func(field string) bool {
+						a, b := elem+"."+kTOMsg+field, "p1."+kTOMsg+field
+						for _, f := range hit {
+							if f.Op == "==" && ((f.L == a && f.R == b) || (f.L == b && f.R == a)) {
+								return true
+							}
+						}
+						return false
+					}
+					return has("View") && has("ID")
+				}
+				ok = noMatchBefore(fa, st, func(k string) bool { return k == kTCField }, sameViewAndSender) != ""
+			}
 			c.Check(ok, "C08.2/dedup", "timeoutCollector.add: one timeout per (view, sender)", p.InstrPos(st),
 				"the append is reached only when no stored timeout has the same View and the same ID",
 				"append not gated by a duplicate test on exactly (View, ID); facts: "+join(facts.Sorted()))
@@ -334,19 +349,22 @@ func c08UnverifiedMsgSigPath(fl *Flow, fn *ssa.Function, addCall ssa.CallInstruc
 		if b == target {
 			return "reaches " + fl.P.Pos(addCall.Pos())
 		}
-		for _, s := range b.Succs {
-			blocked := false
-			for _, f := range fl.edgeFacts(b, s) {
+		closes := func(fs []Fact) bool {
+			for _, f := range fs {
 				if f.Op == "false" && strings.HasPrefix(f.L, kHasAggQC) {
-					blocked = true
+					return true
 				}
 				if f.Op == "==" && oneIsNil(f) {
 					k := nonNil(f)
 					if strings.HasPrefix(k, kBaseVer) && strings.Contains(k, ", p1."+kTOMsg+"MsgSignature, (hs.TimeoutMsg).ToBytes(p1)") {
-						blocked = true
+						return true
 					}
 				}
 			}
+			return false
+		}
+		for _, s := range b.Succs {
+			blocked := edgeBlocked(fl, b, s, closes, 0)
 			if !blocked && !seen[s] {
 				seen[s] = true
 				work = append(work, s)
@@ -493,6 +511,27 @@ func c08Builders(c *Ctx) {
 				okApp = false
 			}
 			return false
+		})
+		// or an indexed fill of a pre-sized slice: sl[i] = p2[i].<field> for the same index i
+		inSlice := map[ssa.Value]bool{}
+		backwardSlice(combine.Call.Args[0], func(v ssa.Value) bool { inSlice[v] = true; return false })
+		eachInstr(fn, func(in ssa.Instruction) {
+			st, ok := in.(*ssa.Store)
+			if !ok {
+				return
+			}
+			ia, ok := st.Addr.(*ssa.IndexAddr)
+			if !ok || !inSlice[ia.X] {
+				return
+			}
+			if _, isArr := ia.X.(*ssa.Alloc); isArr {
+				return // the varargs array of an append, handled above
+			}
+			n++
+			k := fl.K.Key(st.Val)
+			if !(strings.HasPrefix(k, "p2["+fl.K.Key(ia.Index)+"]") && strings.HasSuffix(k, "."+kTOMsg+x.field)) {
+				okApp = false
+			}
 		})
 		// label: constructor receives (.., Combine result, p1)
 		labelOK := false
